@@ -89,7 +89,7 @@ def _output_name(i: int, nested_funcs: list[list[PipeFunc]], all_inputs: set[str
 
 
 def _sort(funcs: Iterable[PipeFunc]) -> list[PipeFunc]:
-    return sorted(funcs, key=lambda f: f.output_name)
+    return sorted(funcs, key=lambda f: at_least_tuple(f.output_name))
 
 
 def _flatten_dict(d: dict[PipeFunc, list[PipeFunc]]) -> list[PipeFunc]:
